@@ -47,8 +47,13 @@ pub enum CloneDst {
     Slot(Id, Id),
 }
 
-/// Payload of the injected panic.
-pub struct Injected(pub u32);
+/// Payload of the injected panic; `carried` are strong handles the panicking destructor
+/// moved out of its value (they leave the teardown with the unwind).
+pub struct Injected(pub u32, pub Carried);
+#[derive(Default)]
+pub struct Carried(pub Vec<(Id, Rc<Node>)>);
+// single-threaded harness: the payload never leaves the thread
+unsafe impl Send for Carried {}
 
 #[derive(Default)]
 pub struct World {
@@ -337,7 +342,8 @@ impl Node {
         // fault: the destructor panics at its START; everything the value owns is then
         // released while the thread is unwinding (what field drop glue does after a
         // panicking `Drop::drop`), i.e. nested teardowns run with `thread::panicking()`
-        let early = x(|x| x.faults.panic_early_at.contains(&k));
+        let carry = x(|x| x.faults.panic_carry_at.contains(&k));
+        let early = carry || x(|x| x.faults.panic_early_at.contains(&k));
         if early && !std::thread::panicking() {
             x(|x| {
                 x.fired_panics += 1;
@@ -352,8 +358,32 @@ impl Node {
                     let _ = har(|| self.0.release_all(self.1, self.2));
                 }
             }
+            let mut carried = Carried::default();
+            if carry {
+                // the stored strong handles leave with the payload: the model counts them
+                // as temporaries of the program until the payload is dropped
+                let slots = std::mem::take(&mut *self.slots.borrow_mut());
+                for sl in slots {
+                    m(|m| {
+                        if let Some(ob) = m.objs.get_mut(&id) {
+                            if let Some(p) = ob.slots.iter().position(|&(sid, _)| sid == sl.id) {
+                                ob.slots.remove(p);
+                            }
+                        }
+                        // a handle to a member of the group that is being torn down is a
+                        // dead handle (its target was condemned before any destructor ran):
+                        // it keeps nothing alive; anything else is held by the payload
+                        let doomed = m.obligations.contains(&sl.target) || !m.is_alive(sl.target);
+                        if !doomed {
+                            m.temps.push(sl.target);
+                        }
+                    });
+                    carried.0.push((sl.target, sl.h));
+                }
+                st(St::f_panic_payload_carries_handles, carried.0.len() as u64);
+            }
             let _g = ReleaseOnUnwind(self, id, k);
-            std::panic::panic_any(Injected(k));
+            std::panic::panic_any(Injected(k, carried));
         }
         let pending = self.release_all(id, k);
 
@@ -366,7 +396,7 @@ impl Node {
             });
             report::F_PANIC.store(true, Relaxed);
             st(St::f_dtor_panic, 1);
-            std::panic::panic_any(Injected(k));
+            std::panic::panic_any(Injected(k, Carried::default()));
         }
         if let Some(p) = pending {
             if !std::thread::panicking() {
@@ -543,7 +573,7 @@ impl Clone for Node {
                 });
                 report::F_PANIC.store(true, Relaxed);
                 st(St::f_clone_panic, 1);
-                std::panic::panic_any(Injected(u32::MAX));
+                std::panic::panic_any(Injected(u32::MAX, Carried::default()));
             }
             let (dst, o2) = match x(|x| x.pending_clone.take()) {
                 Some(p) => p,
@@ -673,7 +703,7 @@ fn assume_now(h: Id) {
 /// Program handles a call uses in a way that needs the type `Rc<Node>`.
 fn needs_init(op: &Op) -> Vec<Id> {
     match *op {
-        Op::Drop { h } | Op::SelfSame { h } | Op::UnSelfSame { h } | Op::Downgrade { h, .. } | Op::TryUnwrap { h, .. } | Op::MakeMut { h, .. } | Op::GetMut { h } | Op::IntoRaw { h, .. } | Op::AssumeInit { h } => vec![h],
+        Op::CloneFrom { dst: h, .. } | Op::Drop { h } | Op::SelfSame { h } | Op::UnSelfSame { h } | Op::Downgrade { h, .. } | Op::TryUnwrap { h, .. } | Op::MakeMut { h, .. } | Op::GetMut { h } | Op::IntoRaw { h, .. } | Op::AssumeInit { h } => vec![h],
         Op::Store { h, owner, adopt } => {
             if adopt {
                 vec![h, owner]
@@ -777,6 +807,38 @@ fn exec_inner(op: &Op, dying: Option<&Node>) -> bool {
             let g = release_begin(o);
             sut(move || drop(r));
             c14_close();
+            nested_release_returned(&g);
+            true
+        }
+        Op::CloneFrom { dst, src } => {
+            if dst == src || w(|w| !w.hs.contains_key(&dst) || !w.hs.contains_key(&src)) {
+                return false;
+            }
+            // both handles are borrowed for the duration of the call: destructor-side
+            // code cannot use them
+            let (mut a, b) = w(|w| (w.hs.remove(&dst).unwrap(), w.hs.remove(&src).unwrap()));
+            let (old, new) = m(|m| (m.ph[&dst], m.ph[&src]));
+            m(|m| {
+                m.ph.insert(dst, new);
+            });
+            st(St::op_clone_from, 1);
+            if old != new {
+                mark_consuming(old);
+            }
+            let g = release_begin(old);
+            let r = catch_unwind(AssertUnwindSafe(|| sut(|| a.clone_from(&b))));
+            let same = Rc::ptr_eq(&a, &b);
+            w(|w| {
+                w.hs.insert(dst, a);
+                w.hs.insert(src, b);
+            });
+            if let Err(p) = r {
+                drop(g);
+                resume_unwind(p);
+            }
+            if !same {
+                violation("api-result", "clone_from-wrong-target", "after a.clone_from(&b) the two handles do not point to the same allocation");
+            }
             nested_release_returned(&g);
             true
         }
@@ -1575,7 +1637,26 @@ pub fn top_level(op: &Op) -> bool {
                 }
                 violation("internal-panic", "panic-escaped-from-library", &format!("a panic escaped from the library at {loc}: {msg}"));
             }
-            std::mem::forget(p);
+            // the program drops the payload; handles it carries are released now
+            match p.downcast::<Injected>() {
+                Ok(inj) => {
+                    let Injected(_, Carried(hs)) = *inj;
+                    for (t, h) in hs {
+                        m(|m| {
+                            if let Some(p) = m.temps.iter().position(|&x| x == t) {
+                                m.temps.remove(p);
+                            }
+                        });
+                        let g = release_begin(t);
+                        let r = catch_unwind(AssertUnwindSafe(|| sut(move || drop(h))));
+                        drop(g);
+                        if let Err(p2) = r {
+                            std::mem::forget(p2);
+                        }
+                    }
+                }
+                Err(p) => std::mem::forget(p),
+            }
             (true, true)
         }
     };
